@@ -140,9 +140,14 @@ BrokenInvariants(s) == {n \in InvNames : ~InvHolds(n, s)}
 
 ALock(a) == Sched(a.start, a.lockup)
 AVest(a) == Sched(a.start, a.vesting)
+\* what an account releases of a schedule at t: the reader of Schedule, and everything from the
+\* account's recorded end time on (an account whose end time precedes the end of its periods releases
+\* the rest THEN, whatever the periods say)
+ReadAcct(a, sch, t) == IF t > a.start /\ t >= a.end THEN a.ov ELSE Read(D, sch, t)[ND]
+AEnd(a) == Sched(a.end, <<>>)     \* makes the end time a critical instant
 LockedAt(a, t) ==
     IF a.kind = "vesting"
-    THEN BigSub(a.ov, BigMin(Read(D, ALock(a), t)[ND], Read(D, AVest(a), t)[ND]))
+    THEN BigSub(a.ov, BigMin(ReadAcct(a, ALock(a), t), ReadAcct(a, AVest(a), t)))
     ELSE "0"
 
 \* what the rest of the world may see of an account ("none" and "plain" differ only in whether an
@@ -234,7 +239,7 @@ RedeemBroken(s, t, from, to, id, x, now) ==
      THEN {} ELSE {"redeem-part-earlier-than-pro-rata-share"})
     \cup
     \* the paid coins are released no earlier than the part of the record that left
-    (IF \A u \in RedeemInstants({ALock(R), AVest(R), ALock(R2), AVest(R2), before, after}, now) :
+    (IF \A u \in RedeemInstants({ALock(R), AVest(R), AEnd(R), ALock(R2), AVest(R2), AEnd(R2), before, after}, now) :
            BigLE(BigAdd(PaidFree(u), Cum(D, after, u)[ND]), Cum(D, before, u)[ND])
      THEN {} ELSE {"redeem-unlocks-early"})
     \cup
@@ -242,12 +247,28 @@ RedeemBroken(s, t, from, to, id, x, now) ==
         /\ \A h \in AcctsOf(s) \ {to} : AView(t.acct[h]) = AView(s.acct[h])
      THEN {} ELSE {"redeem-frame"})
 
+\* the same clause on what the recipient's account object itself answered when it was asked what it
+\* locks at the critical instants (paid: sequence of [t, pre, post], recorded by the harness)
+RedeemObservedBroken(s, t, id, x, paid) ==
+    LET I == FindDenom(s, id) IN
+    IF I = {} \/ Len(t.denoms) # Len(s.denoms) THEN {}
+    ELSE LET i == CHOOSE j \in I : TRUE  d == s.denoms[i]  d2 == t.denoms[i]
+             before == DenomSched(d)
+             after  == IF d2.exists THEN DenomSched(d2) ELSE Sched(d.start, <<>>)
+         IN IF \A k \in 1..Len(paid) :
+                  BigLE(BigAdd(BigSub(x, BigSub(paid[k].post, paid[k].pre)), Cum(D, after, paid[k].t)[ND]),
+                        Cum(D, before, paid[k].t)[ND])
+            THEN {} ELSE {"redeem-unlocks-early"}
+
 \* e: [ev, args, ok];  s: state before;  t: state after
 StepBroken(e, s, t) ==
     IF ~e.ok THEN (IF t = s THEN {} ELSE {"failed-step-changed-state:" \o e.ev})
     ELSE CASE e.ev = "liquidate" -> LiquidateBroken(s, t, e.args.from, e.args.to, e.args.amt, e.args.t)
            [] e.ev = "transfer"  -> TransferBroken(s, t, e.args.from, e.args.to, e.args.denom, e.args.amt)
            [] e.ev = "redeem"    -> RedeemBroken(s, t, e.args.from, e.args.to, e.args.denom, e.args.amt, e.args.t)
+           \* a restart of the module from its exported genesis: the statement speaks of every state, so the
+           \* invariants are evaluated on the imported state (BrokenInvariants); nothing else is asserted
+           [] e.ev = "export_import" -> {}
            [] OTHER -> {"unknown-event"}
 StepOK(e, s, t) == StepBroken(e, s, t) = {}
 
@@ -280,6 +301,7 @@ StepClass(e, s) ==
                 ELSE IF R.kind = "plain" THEN "recipient=plain" ELSE "recipient=fresh"
       [] e.ev = "liquidate" -> IF e.args.from = e.args.to THEN "to=self" ELSE "to=other"
       [] e.ev = "transfer"  -> IF e.args.from = e.args.to THEN "from=to" ELSE "from#to"
+      [] e.ev = "export_import" -> "restart-from-exported-genesis"
       [] OTHER -> "-"
 
 ---------------------------------------------------------------------------
@@ -439,6 +461,7 @@ MResult(s, ev, args) ==
     CASE ev = "liquidate" -> IF args.from \in AcctsOf(s) /\ args.to \in AcctsOf(s) THEN MLiquidate(s, args) ELSE [ok |-> FALSE, post |-> s]
       [] ev = "transfer"  -> MTransfer(s, args)
       [] ev = "redeem"    -> MRedeem(s, args)
+      [] ev = "export_import" -> [ok |-> TRUE, post |-> s]
 
 ---------------------------------------------------------------------------
 (* M: the machine *)
@@ -579,7 +602,13 @@ SimNext ==
           /\ \E i \in {RandDenom(hist)} : \E from \in {RandHolder(i)} :
              \E args \in {[from |-> from, to |-> RandName(hist), denom |-> DenomId(i), amt |-> HeldOr1(i, from), t |-> RandT(hist)]} :
                 Do("redeem", args)
-SimSpec == Init /\ [][SimNext \/ Emit]_vars
+\* a restart from the exported genesis: when a fully redeemed token has left a gap below a live one,
+\* otherwise one walk in ten
+GapBelowLive(h) == \E i \in DenomIdx(st), j \in DenomIdx(st) : i < j /\ ~st.denoms[i].exists /\ st.denoms[j].exists
+SimRestart == /\ Len(hist) < MaxLen
+              /\ (GapBelowLive(hist) /\ RandomElement(1..2) = 1) \/ RandomElement(1..10) = 1
+              /\ \E args \in {[t |-> RandT(hist)]} : Do("export_import", args)
+SimSpec == Init /\ [][SimNext \/ SimRestart \/ Emit]_vars
 
 ---------------------------------------------------------------------------
 (* model values for the configurations (cfg files cannot write tuples) *)
@@ -594,7 +623,7 @@ MC_AcctsA == [a1 |-> VA(0, <<P(2, "2"), P(2, "2")>>, "0"), a2 |-> VA(3, <<P(3, "
 \* three periods with a residue-producing split, a plain recipient
 MC_AcctsB == [a1 |-> VA(0, <<P(2, "1"), P(2, "1"), P(3, "1")>>, "1"), a2 |-> PA("2"), a3 |-> VA(1, <<P(6, "1")>>, "0")]
 \* simulation: longer schedules
-MC_AcctsS == [a1 |-> VA(0, <<P(2, "3"), P(2, "2"), P(3, "4")>>, "0"), a2 |-> VA(2, <<P(3, "2"), P(2, "3")>>, "2"), a3 |-> NA]
+MC_AcctsS == [a1 |-> VA(0, <<P(2, "3"), P(2, "2"), P(5, "4")>>, "0"), a2 |-> VA(2, <<P(3, "2"), P(1, "3")>>, "2"), a3 |-> NA]
 \* recipients whose vesting is unfinished: a2 lockup ahead of vesting (unlocked at 1, vests at 4 and 7),
 \* a3 lockup behind vesting, both running (vests at 2 and 4, unlocks at 3 and 6)
 MC_AcctsC == [a1 |-> VA(0, <<P(2, "2"), P(3, "2")>>, "0"),
